@@ -7,6 +7,7 @@ import (
 	"fmt"
 	"reflect"
 	"sort"
+	"sync"
 	"sync/atomic"
 	"time"
 	"unsafe"
@@ -96,6 +97,9 @@ type pristine struct {
 	ttls     []uint32
 	Compress bool
 	norm     string // Bytes with every TTL zeroed: identity of a version
+
+	cmu     sync.Mutex
+	hitFlag map[bool]bool // Compress flag of the first hit served from this version, per flag of the stored object (original store / dump-loaded)
 }
 
 func makePristine(noOpt *dns.Msg) *pristine {
@@ -206,8 +210,24 @@ func checkServed(hit *dns.Msg, qid uint16, pr *pristine, rule ttlRule, wantCompr
 	if hit.Id != qid {
 		return &mismatch{Field: "id", Detail: fmt.Sprintf("hit carries ID %d, its query has ID %d", hit.Id, qid)}
 	}
-	if wantCompress != nil && hit.Compress != *wantCompress {
-		return &mismatch{Field: "compress-flag", Detail: fmt.Sprintf("Compress=%v, stored message had %v", hit.Compress, *wantCompress)}
+	if wantCompress != nil {
+		// Msg.Compress is a packing hint of the Go object, not DNS content: a cache may hand
+		// out hits with the flag of the stored message (the pinned tree) or with its own
+		// constant (e.g. entries kept in wire form). What must not happen is that the flag of
+		// later hits follows what a caller did to an earlier hit or to the stored object: all
+		// hits of one stored version carry the same flag.
+		pr.cmu.Lock()
+		if pr.hitFlag == nil {
+			pr.hitFlag = map[bool]bool{}
+		}
+		if _, ok := pr.hitFlag[*wantCompress]; !ok {
+			pr.hitFlag[*wantCompress] = hit.Compress
+		}
+		base := pr.hitFlag[*wantCompress]
+		pr.cmu.Unlock()
+		if hit.Compress != base {
+			return &mismatch{Field: "compress-flag", Detail: fmt.Sprintf("Compress=%v, the first hit served from this entry had %v (stored message: %v)", hit.Compress, base, *wantCompress)}
+		}
 	}
 	b, err := packServed(hit)
 	if err != nil {
